@@ -19,6 +19,7 @@ import numpy as np
 
 import geodepy.constants as gc
 from geodepy.transform import (conform7, conform14, transform_atrf2014_to_gda2020, transform_gda2020_to_atrf2014)
+from gpmc import cfg
 from gpmc import oracle_misc as om
 from gpmc.core import Sub, HarnessError
 
@@ -350,6 +351,8 @@ def ev_cov(case, rec):
                     rec.outcome('cov-bad')
                 else:
                     rec.outcome('cov-ok')
+                if rep == 0 and mi < 2:
+                    cfg.forms_agree(rec, lambda vf: conform14(pt[0], pt[1], pt[2], e, t, vf), m, r, 'transform:conform14:vcv', one, co, 'conform14')
                 if prev is not None and prev != out.tobytes():
                     rec.fail('repeated identical conform14 calls return different covariances', site='transform:conform14:vcv-history',
                              observed=out, case=one, coords=co)
@@ -357,7 +360,24 @@ def ev_cov(case, rec):
     rec.sample(case)
 
 
+def gen_const(tier, seed):
+    yield {'what': 'shipped parameter sets named by the property'}
+
+
+def ev_const(case, rec):
+    rec.transition()
+    rec.nontriv()
+    bad = cfg.published_trans_ok(['itrf2014_to_gda2020', 'atrf2014_to_gda2020'])
+    rec.state(('constants', len(bad)))
+    for n, f, got, exp in bad:
+        rec.fail('shipped set %s does not carry its published value for %s' % (n, f), site='constants:%s:%s' % (n, f),
+                 observed=got, expected=exp)
+    rec.outcome('constants-ok' if not bad else 'constants-bad')
+    rec.sample({'published': {k: cfg.PUBLISHED_TRANS[k] for k in ['itrf2014_to_gda2020', 'atrf2014_to_gda2020']}})
+
+
 SUBCHECKS = [
+    Sub('constants', gen_const, ev_const, chunk=1, floor=1, parallel=False),
     Sub('epoch', gen_epoch, ev_epoch, chunk=2, floor=1000, guard=True, envs=1),
     Sub('identity', gen_identity, ev_identity, chunk=1, floor=100, guard=True, envs=1),
     Sub('wrappers', gen_wrap, ev_wrap, chunk=1, floor=200, guard=True, envs=1),
